@@ -28,6 +28,7 @@ Definition modelled_functions : list string :=
    "integrationdiagram.MakeBuilderfromStmt"; "integrationdiagram.GenerateIntegrations";
    "datamodeldiagram.DataModelView.DrawRelation"; "datamodeldiagram.DataModelView.GenerateDataView";
    "exporter.EndpointExporter.populateEndpoint"; "exporter.SwaggerExporter.GenerateSwagger";
+   "exporter.EndpointExporter.setEndpointParams"; "exporter.EndpointExporter.setCommonAttributes"; "syslwrapper.AppMapper.mapResponse";
    "database.findTableDepth"; "database.processTableDepth"; "database.CreateTableDepthMap"; "database.foreignKeyTarget";
    "database.ScriptView.writeCreateSQLForAColumn"; "database.ScriptView.writeModifySQLForAColumn";
    "sysl.diagramCmd.Execute"; "sysl.renderMermaid"]%string.
